@@ -6,7 +6,7 @@ import c10_dev
 
 PROP = 'C10'
 COQ_TARGETS = ['theories/AsapFacts.vo', 'theories/AsapCodecFacts.vo', 'theories/DeviceRxFacts.vo', 'theories/DeviceRxReply.vo',
-               'theories/DeviceRxEnd.vo']
+               'theories/DeviceRxEnd.vo', 'theories/DeviceRxPeer.vo']
 COQ_IMPORTS = ('From Bac Require Import Base.\nFrom Bac Require Import Tag.\nFrom Bac Require Import Asap.\nFrom Bac Require Import AsapCodec.\n'
                'From Bac Require SsmWorld.\nFrom Bac Require Import Ssm DeviceRx.')
 RULE = ('valid confirmed requests of every supported service (ReadProperty, WriteProperty, ReadPropertyMultiple, SubscribeCOV, '
@@ -279,7 +279,7 @@ def direct(rng, tier, focus=()):
         frames, hdr_garbage = [], False
         for _ in range(rng.randrange(1, 5)):
             g, hg = garbage(rng.randrange(5))
-            frames.append(g); hdr_garbage = hdr_garbage or hg
+            frames.append(_avoid_ids(g)); hdr_garbage = hdr_garbage or hg
         pos = rng.randrange(len(frames) + 1)
         frames.insert(pos, C.npdu(bytes(v)))
         w = C.Device()
@@ -496,6 +496,17 @@ def direct(rng, tier, focus=()):
         nontriv.add(tuple(frames))
     samples.append({'direct': 'BVLL garbage + valid Original-Unicast request', 'example': bvll(0x0a, C.npdu(rp)).hex()})
     return failures, {'evaluations': n, 'distinct_nontrivial': len(nontriv), 'samples': samples, 'device_level_notes': dict(DEV_STATS)}
+
+
+def _avoid_ids(g):
+    """garbage must not impersonate the transactions of the valid requests (invoke IDs 77 / 78, see DESIGN.md section 15):
+    random octets that parse as an APDU carrying one of them (e.g. a later segment of a segmented request, answered by an
+    Abort with that ID since the first-segment fix) get 79 instead; no random number is consumed"""
+    r = C.parse_npdu_apdu(g)
+    if r is not None and r[0] != 'netmsg' and r[1] in (77, 78):
+        k = len(g) - len(r[2]) + (2 if (r[0] == 0 and len(r[2]) >= 3) else 1)
+        g = g[:k] + bytes([79]) + g[k + 1:]
+    return g
 
 
 def _has_reserved_maxapdu(frames_hex):
